@@ -12,4 +12,5 @@ mkdir -p "$VERIF/.target-qsh"
     flock 9
     cd "$Q" && cargo build --offline --target-dir "$VERIF/.target-qsh" >"$VERIF/.target-qsh/build.log" 2>&1
 ) 9>"$VERIF/.target-qsh/.build.lock" || { echo "INFRA: qshuttle build failed" >&2; tail -30 "$VERIF/.target-qsh/build.log" >&2; exit 2; }
+/verif/scripts/build_daemon.sh || exit 2
 exit 0
